@@ -109,7 +109,10 @@ class SerializedFileBufferedCollection(FileBufferedCollection):
                     # multiple collections pointing to the same file, etc).
                     return
                 else:
-                    blob = self._encode(self._data)
+                    # The buffer, not this instance's possibly stale in-memory
+                    # copy, holds the current data of all collections pointing
+                    # to this file.
+                    blob = cached_data["contents"]
 
                     # If the contents have not been changed since the initial read,
                     # we don't need to rewrite it.
